@@ -2362,7 +2362,11 @@ impl RaftNode {
             if log_ok {
                 success = self.append_leader_entries(&ae.entries, &mut persistent);
 
-                match_index = persistent.array_len_as_log_index();
+                // Acknowledge only what this request proves to match the leader's log:
+                // everything up to its last entry. A longer local log may end in a
+                // stale suffix from an older term that the leader knows nothing about.
+                let last_new_index = ae.prev_log_index + ae.entries.len() as u64;
+                match_index = last_new_index;
 
                 // Update commit index
                 let mut volatile = self.volatile.write();
